@@ -157,6 +157,11 @@ class Sampler:
         return Fraction(int(re.p), int(re.q)), Fraction(int(im.p), int(im.q))
 
 
+def atext(t1):
+    """SymPy text of one raw term with the symbolic coefficient A ('@…': the text already contains A)"""
+    return t1[1:] if t1.startswith('@') else 'A*' + t1
+
+
 def parse_val(tok):
     if tok in ('undef', 'none', 'unsupported'):
         return None
@@ -228,11 +233,11 @@ class Gen:
                 txt.append('%s((%s)*t)' % ('cosh' if c else 'sinh', a))
         return toks, txt
 
-    def term(self, shape=None):
+    def term(self, shape=None, shape_sub=None):
         rng = self.rng
         shape = shape or self.r(['polyexp', 'polyexp', 'sincos', 'sincos', 'sincos', 'product', 'delta', 'delta', 'fn', 'fn',
                                  'fn', 'fnprod', 'step', 'step', 'rstep', 'rstep', 'rstep', 'hyp', 'cexp', 'const', 'undef', 'undef',
-                                 'ustep'])
+                                 'ustep', 'sincosb', 'zerostep'])
         c = self.coef()
         key = {'kind': shape}
         if shape == 'const':
@@ -252,6 +257,31 @@ class Gen:
                 tk.append('step 1 %s' % fstr(-tau))
                 tx.append('Heaviside(%s)' % self.lin(1, -tau))
                 key['delay'] = 'zero' if tau == 0 else ('pos' if tau > 0 else 'neg')
+        elif shape == 'sincosb':
+            # exp(a t + b) sin/cos(w t + ph) [u(t - tau)]: the `beta` path of sin_cos
+            a = self.rate()
+            while a == 0:
+                a = self.rate()
+            b = Fraction(self.rng.randint(-6, 6), 4)
+            while b == 0:
+                b = Fraction(self.rng.randint(-6, 6), 4)
+            tk, tx = ['expb %s %s' % (fstr(a), fstr(b))], ['exp((%s)*t + (%s))' % (a, b)]
+            t2, x2 = self.smooth_atoms(['trig'])
+            tk += t2
+            tx += x2
+            if rng.random() < 0.5:
+                tau = self.r([self.delay(), self.delay(), -self.delay()])
+                tk.append('step 1 %s' % fstr(-tau))
+                tx.append('Heaviside(%s)' % self.lin(1, -tau))
+                key['delay'] = 'pos' if tau > 0 else 'neg'
+        elif shape == 'zerostep':
+            # u(a t + b), a < 0, b <= 0: zero on the whole unilateral axis (reverse_step -> 0)
+            tk, tx = self.smooth_atoms(self.r([[], ['exp'], ['tpow']]))
+            a = -self.r([Fraction(1), Fraction(2), Fraction(1, 2)])
+            b = -self.r([Fraction(0), Fraction(1), Fraction(1, 2)])
+            tk.append('step %s %s' % (fstr(a), fstr(b)))
+            tx.append('Heaviside(%s)' % self.lin(a, b))
+            key['at_origin'] = b == 0
         elif shape == 'product':
             kinds = self.r([['tpow', 'trig'], ['tpow', 'exp', 'trig'], ['trig', 'trig'], ['trig', 'trig'], ['tpow', 'exp']])
             tk, tx = self.smooth_atoms(kinds)
@@ -323,7 +353,8 @@ class Gen:
             key.update({'fn': f, 'scale_is_one': a == 1, 'shift_is_zero': b == 0,
                         'support_before_zero': (lo - b) / a < 0})
         elif shape == 'undef':
-            sub = self.r(['func', 'func', 'funcexp', 'deriv', 'deriv', 'integ', 'convxy', 'convexp'])
+            sub = shape_sub or self.r(['func', 'func', 'funcexp', 'deriv', 'deriv', 'integ', 'integ0', 'convxy', 'convyx', 'convbil', 'convexp',
+                                       'deriv-at', 'delta-x'])
             key['sub'] = sub
             if sub == 'func':
                 a = self.r([Fraction(1), Fraction(2), Fraction(1, 2), Fraction(3)])
@@ -340,8 +371,33 @@ class Gen:
                 return 'dundef %s %d' % (fstr(c), n), '(%s)*Derivative(x(t), t, %d)' % (c, n), key
             if sub == 'integ':
                 return 'iundef %s' % fstr(c), '(%s)*Integral(x(tau), (tau, -oo, t))' % c, key
+            if sub == 'integ0':
+                # int_0^oo x(t - tau) dtau = int_{-oo}^t x(u) du  (first branch of `integral`)
+                return 'iundef %s' % fstr(c), '(%s)*Integral(x(t - tau), (tau, 0, oo))' % c, key
             if sub == 'convxy':
                 return 'convXY %s' % fstr(c), '(%s)*Integral(x(tau)*y(t - tau), (tau, 0, t))' % c, key
+            if sub == 'convyx':
+                # the same convolution with the roles of tau and t - tau exchanged (second recognition branch)
+                return 'convXY %s' % fstr(c), '(%s)*Integral(x(t - tau)*y(tau), (tau, 0, t))' % c, key
+            if sub == 'convbil':
+                # bilateral limits: for causal x, y the same convolution
+                return 'convXY %s' % fstr(c), '(%s)*Integral(x(tau)*y(t - tau), (tau, -oo, oo))' % c, key
+            if sub == 'deriv-at':
+                # derivative of a scaled / delayed undefined function (x causal, zero initial conditions)
+                n = rng.randint(1, 3)
+                a = self.r([Fraction(1), Fraction(2), Fraction(1, 2), Fraction(3)])
+                b = self.r([-self.delay() * a, -self.delay() * a, Fraction(0)])
+                if a == 1 and b == 0:
+                    b = -self.delay()
+                key['order'] = n
+                return ('dundefAt %s %d %s %s' % (fstr(c), n, fstr(a), fstr(b)),
+                        '(%s)*Derivative(x(%s), t, %d)' % (c, self.lin(a, b), n), key)
+            if sub == 'delta-x':
+                a = self.r([Fraction(1), Fraction(1), Fraction(2)])
+                tau = self.r([Fraction(1, 2), Fraction(1), Fraction(3, 2), Fraction(2), -Fraction(1)])
+                b = -tau * a
+                key['before_origin'] = tau < 0
+                return 'deltaX %s %s %s' % (fstr(c), fstr(a), fstr(b)), '(%s)*x(t)*DiracDelta(%s)' % (c, self.lin(a, b)), key
             a = self.rate()
             return 'convExpX %s %s' % (fstr(c), fstr(a)), '(%s)*Integral(exp((%s)*tau)*x(t - tau), (tau, 0, oo))' % (c, a), key
         else:
@@ -362,6 +418,63 @@ XSIGS_IC = [
 YSIG = ('ep 1 0 -2 0 ep 1 1 -2 0', '1/(z+2) + 1/(z+2)**2')
 
 
+# how each source branch of laplace.py is treated by the check: (function suffix, substring of the block text) -> status
+BRANCH_STATUS = [
+    ('term', 'expr == 1', 'model+theorem const_entry'),
+    ('term', 'return const / (s - arg)', 'model+theorem exp_entry'),
+    ('term', 'expr.func == sym.exp', 'model+theorem exp_entry'),
+    ('term', 'self.integral(', 'model+theorems integral_entry / conv_entry / conv_exp_entry'),
+    ('term', 'self.sin_cos(', 'model+theorems sin_cos_entry(_any_field/_beta), sin_cos_is_integral'),
+    ('term', 'return expr.args[1]', 'model (flag Gen.deltaUndefSifts)+theorems delta_undef_spec/entry; finding C09-F25'),
+    ('term', 'delta, fun = expr.args', 'model (flag Gen.deltaUndefSifts)+theorems delta_undef_spec/entry'),
+    ('term', 'self.derivative_undef(', 'model+theorems deriv_undef_entry(_zic), deriv_undef_at_spec/entry'),
+    ('term', 'self.func(factors[0]', 'model+theorems func_entry / func_exp_entry'),
+    ('term', 'result = self.func(factors[0]', 'model+theorem func_exp_entry'),
+    ('term', 'Cannot handle product', 'error path (no result: outside the property)'),
+    ('term', 'result = self.function(', 'model (GENERATED table)+theorems function_entry_*'),
+    ('term', 'return result * const', 'model (GENERATED table)+theorems function_entry_*'),
+    ('term', 'expand_functions', 'spec (expandFn)+oracle; SymPy integrates the expansion'),
+    ('term', 'rewrite(sym.exp)', 'spec (applySmooth hyp)+oracle'),
+    ('term', 'len(terms) > 1', 'spec linearity (lt_linear)+oracle'),
+    ('term', 'result += self.term', 'spec linearity (lt_linear)+oracle'),
+    ('term', 'is_Piecewise', 'oracle (directed family piecewise); lt_ignores_negative_time'),
+    ('term', 'integrate_0(', 'sympy.integrate not modelled: value judged against the specification (lt_is_integral for the class)'),
+    ('term', 'integrate_0minus(', 'sympy.integrate not modelled: value judged against the specification; deltas at the origin (lt_delta_at_origin)'),
+    ('unscale_delta', '', 'spec (semSimple delta scaling)+oracle; finding C09-F19 fixed'),
+    ('clip_step', 'return sym.S.One', 'model (GENERATED guard)+theorem clip_step_sound'),
+    ('clip_step', '', 'model (GENERATED guard clipGuard)'),
+    ('reverse_step', 'return sym.S.Zero', 'spec (window semantics, lt_window)+oracle (directed family zerostep)'),
+    ('reverse_step', '', 'spec (window semantics: lt_window, window_pointwise, reversed_step_entry)+oracle'),
+    ('sin_cos', 'raise ValueError', 'falls back to SymPy (then judged by the oracle)'),
+    ('sin_cos', 'is_Symbol', 'symbolic delay: outside the generated class (numeric delays)'),
+    ('sin_cos', 'beta', 'model+theorem sin_cos_entry_beta'),
+    ('sin_cos', '', 'model (sinCosFormula)+theorems sin_cos_entry, sin_cos_is_integral'),
+    ('function', '', 'model (GENERATED table)+theorems function_entry_rect/tri/ramp/rampstep'),
+    ('func', 'self.error', 'error path'),
+    ('func', '', 'model+theorem func_entry'),
+    ('derivative_undef', 'self.error', 'error path'),
+    ('derivative_undef', '', 'model+theorems deriv_undef_entry, deriv_undef_entry_zic, deriv_undef_at_entry'),
+    ('integral', 'self.error', 'error path (stream error-paths)'),
+    ('integral', '', 'model+theorems integral_entry / conv_entry / conv_exp_entry'),
+    ('integrate', 'self.error', 'error path (SymPy could not integrate)'),
+    ('integrate', '', 'wrapper of sympy.integrate: not modelled, output judged by the oracle'),
+    ('noevaluate', '', 'evaluate=False: returns the defining integral unevaluated (stream error-paths)'),
+    ('check', '', 'input validation'),
+    ('key', '', 'cache key: cached = uncached checked on every case'),
+]
+
+
+def branch_status(label, b):
+    if label != 'laplace.py':
+        return {'transformer.py': 'term splitting / cache / remove_heaviside: spec linearity + cache oracle',
+                'utils.py': 'scale/shift extraction: exercised through every scaled or shifted argument; outputs judged by the oracle'}.get(label, '')
+    fn = b['fn'].split('.')[-1]
+    for (f, sub, st) in BRANCH_STATUS:
+        if f == fn and sub in b['text']:
+            return st
+    return ''
+
+
 def run(chk, replay=None):
     # ---- 1. translator
     text, info = tx_laplace.generate(common.REPO)
@@ -375,7 +488,9 @@ def run(chk, replay=None):
     # ---- 2. proofs
     broken = chk.lean(['Lcapy/Props/C09.lean'],
                       helper_files=['Lcapy/Proofs/Laplace.lean', 'Lcapy/Proofs/LaplaceEntries.lean',
-                                    'Lcapy/Proofs/LaplaceAnchor.lean', 'Lcapy/Spec/Signal.lean',
+                                    'Lcapy/Proofs/LaplaceUndef.lean', 'Lcapy/Proofs/LaplaceWindow.lean',
+                                    'Lcapy/Proofs/LaplaceAnchor.lean', 'Lcapy/Proofs/LaplaceIntegral.lean',
+                                    'Lcapy/Proofs/LaplaceSemantics.lean', 'Lcapy/Spec/Signal.lean',
                                     'Lcapy/Model/ExpPoly.lean', 'Lcapy/Model/Laplace.lean',
                                     'Lcapy/Generated/LaplaceTable.lean', 'Lcapy/Driver/C09.lean'],
                       leanchecker=(chk.tier == 'thorough'))
@@ -396,6 +511,17 @@ def run(chk, replay=None):
     from lcapy import expr as lexpr, s as ls
     from lcapy.laplace import laplace_transformer as LTr
     ssym = ls.sympy
+
+    # ---- branch-coverage instrument (from the outside: sys.monitoring line events on the anchored functions only)
+    from translate import branchcov
+    import lcapy.laplace as _lap
+    import lcapy.transformer as _trf
+    import lcapy.utils as _utl
+    bcov = branchcov.BranchCov({
+        'laplace.py': (_lap, None),
+        'transformer.py': (_trf, {'Transformer.transform', 'UnilateralForwardTransformer'}),
+        'utils.py': (_utl, {'factor_const', 'scale_shift', 'similarity_shift', 'expand_functions'})}, annotate=branch_status)
+    bcov.start()
 
     # which branch the real code takes (diagnostic only; wrappers do not change behaviour)
     trace = []
@@ -453,6 +579,8 @@ def run(chk, replay=None):
         if r.has(S.Integral) or r.has(S.Limit):
             return 'unevaluated'
         X, Y, Xe, Ye, z, x, tt, ics = undef_subs(xs, zic)
+        if any(sy.name == 't' for sy in r.free_symbols):
+            return 'has-t'
         # initial-condition symbols  x(0), Subs(Derivative(x(t), t), t, 0), ...
         if r.has(S.Subs):
             def rep_subs(*args):
@@ -462,7 +590,17 @@ def run(chk, replay=None):
                     return smp.rat(ics[order]) if order < len(ics) else S.Symbol('BAD')
                 return S.Symbol('BAD')
             r = r.replace(S.Subs, rep_subs)
-        r = r.replace(x, lambda a: smp.rat(ics[0]) if (a == 0 and ics) else S.Symbol('BAD'))
+        def x_at(a):
+            # x(0) with a pre-history: the recorded x(0-); x(q), q > 0 rational: the value of the signal put for x (Lean `evalAt`)
+            if a == 0 and ics:
+                return smp.rat(ics[0])
+            if a.is_Rational and a > 0:
+                rep = drv.ask1('sig.at %s ; %s ; %s' % (smp.env_tokens(), xs[0], fstr(Fraction(int(a.p), int(a.q)))))
+                v = parse_val(rep)
+                if v is not None:
+                    return smp.rat(v[0]) + S.I * smp.rat(v[1])
+            return S.Symbol('BAD')
+        r = r.replace(x, x_at)
         r = r.replace(X, lambda a: Xe.subs(z, a)).replace(Y, lambda a: Ye.subs(z, a))
         if r.has(S.Symbol('BAD')):
             return None
@@ -490,7 +628,8 @@ def run(chk, replay=None):
                 st[0] += sv[0]
                 st[1] += sv[1]
             if mv is None:
-                mv = sv if rep[1] == 'none' else None    # branch delegated to sympy.integrate: specification value
+                # branch delegated to sympy.integrate: specification value (other branches without a value: unmodelled)
+                mv = sv if (rep[1] == 'none' and br == 'sympy') else None
             if mv is None:
                 m_ok = False
             else:
@@ -506,7 +645,7 @@ def run(chk, replay=None):
         if has_undef and any(k.get('sub') == 'deriv' for (_, _, k) in terms) and rng.random() < 0.5:
             zic = False
             xs = rng.choice(XSIGS_IC)
-        txt = ' + '.join('A*' + t[1] for t in terms)
+        txt = ' + '.join(atext(t[1]) for t in terms)
         canon = (txt, zic)
         for (_, _, k) in terms:
             chk.count('shape', k['kind'] + (':' + k['fn'] if 'fn' in k else '') + (':' + k['sub'] if 'sub' in k else ''))
@@ -537,6 +676,24 @@ def run(chk, replay=None):
             return
         for b in trace:
             chk.count('lcapy-branch', b)
+        if v1 == 'has-t':
+            # a Laplace transform that still depends on the time variable is not a function of s at all
+            chk.case(canon, True)
+            bad = []
+            for tm in terms:
+                try:
+                    if lcapy_value(lexpr(atext(tm[1])), smp, xs, zic) == 'has-t':
+                        bad.append(tm)
+                except Exception:   # noqa
+                    pass
+            for tm in (bad or terms[:1]):
+                counterexamples[0] += 1
+                chk.counterexample(dict(tm[2]), {'input': {'expr': atext(tm[1]), 'raw': tm[0], 's': fstr(smp.s), 'A': fstr(smp.A),
+                                                           'zero_initial_conditions': zic, 'within': txt},
+                                                 'lcapy': str(e.laplace(zero_initial_conditions=zic).sympy),
+                                                 'spec': 'the transform is a function of s; it must not contain the time variable t'},
+                                   'Laplace transform still contains the time variable for a %s term' % tm[2]['kind'])
+            return
         if v1 == 'unevaluated' or v1 is None:
             chk.case(canon, False)
             chk.count('degenerate', 'unevaluated' if v1 == 'unevaluated' else 'not-sampled-exactly')
@@ -584,7 +741,7 @@ def run(chk, replay=None):
             if len(terms) > 1:
                 for tm in terms:
                     try:
-                        vv = lcapy_value(lexpr('A*' + tm[1]), smp, xs, zic)
+                        vv = lcapy_value(lexpr(atext(tm[1])), smp, xs, zic)
                         _, sp1, _ = ask_terms([tm], smp, xs, zic)
                         if vv not in (None, 'unevaluated') and sp1 is not None and vv != sp1:
                             bad_terms.append(tm)
@@ -600,7 +757,7 @@ def run(chk, replay=None):
                                          'spec': 'x(s) = L(sem x)(s)'}, 'Laplace transform of a sum differs from its defining integral')
             for tm in bad_terms:
                 counterexamples[0] += 1
-                chk.counterexample(dict(tm[2]), {'input': {'expr': 'A*' + tm[1], 'raw': tm[0], 's': fstr(smp.s), 'A': fstr(smp.A),
+                chk.counterexample(dict(tm[2]), {'input': {'expr': atext(tm[1]), 'raw': tm[0], 's': fstr(smp.s), 'A': fstr(smp.A),
                                                            'zero_initial_conditions': zic, 'within': txt},
                                                  'lcapy': [fstr(v1[0]), fstr(v1[1])], 'spec_value': [fstr(spec[0]), fstr(spec[1])],
                                                  'model_branches': brs,
@@ -633,6 +790,30 @@ def run(chk, replay=None):
         for _ in range(2):
             fixed.append([('dundef 1 %d' % n, '(1)*Derivative(x(t), t, %d)' % n, {'kind': 'undef', 'sub': 'deriv', 'order': n})])
     fixed.append([('prod 1 cos 2 0 step 1 3/2', '(1)*cos(2*t)*Heaviside(t + (3/2))', {'kind': 'sincos', 'delay': 'neg'})])
+    # ---- directed families for the branches of laplace.py that random draws rarely reach (see coverage['branch_coverage'])
+    g2 = Gen(common.random.Random(chk.seed * 7919 + 13))
+    for sub in ['func', 'funcexp', 'integ', 'integ0', 'convxy', 'convyx', 'convbil', 'convexp', 'deriv-at', 'deriv-at', 'delta-x', 'delta-x']:
+        fixed.append([g2.term('undef', sub)])
+    for shp in ['sincosb', 'sincosb', 'zerostep', 'zerostep']:
+        fixed.append([g2.term(shp)])
+    # function table with a shift that leaves a bare Heaviside(t) after expand_functions (branch `expr.has(Heaviside(t))`)
+    for (f, a, b) in [('tri', Fraction(1), Fraction(-1)), ('rect', Fraction(1), Fraction(-1, 2)), ('rect', Fraction(2), Fraction(-1)),
+                      ('rampstep', Fraction(1), Fraction(-1))]:
+        lo = {'rect': Fraction(-1, 2), 'tri': Fraction(-1), 'ramp': Fraction(0), 'rampstep': Fraction(0)}[f]
+        fixed.append([('prod 1 %s %s %s' % (f, fstr(a), fstr(b)), '(1)*%s(%s)' % (f, Gen.lin(a, b)),
+                       {'kind': 'fn', 'fn': f, 'scale_is_one': a == 1, 'shift_is_zero': False, 'support_before_zero': (lo - b) / a < 0})])
+    # four factors: the sin_cos fast path gives up (`too many factors`), SymPy integrates
+    fixed.append([('prod 1 tpow 1 exp -1 sin 2 0 step 1 -1', '(1)*t**1*exp((-1)*t)*sin(2*t)*Heaviside(t + (-1))',
+                   {'kind': 'product', 'trig_factors': 1, 'has_step': True})])
+    # sin_cos with a scaled step (`Need to use similarity theorem`)
+    fixed.append([('prod 1 sin 3 0 step 2 -1', '(1)*sin(3*t)*Heaviside(2*t + (-1))', {'kind': 'sincos', 'delay': 'scaled-step'})])
+    # Piecewise((x, t >= 0)): the signal is only specified for t >= 0 -- as the whole expression and as one term of a sum
+    pw_cases = [('prod 1 exp -2', '@Piecewise((A*exp((-2)*t), t >= 0))', {'kind': 'piecewise', 'where': 'whole'}),
+                ('prod 1 sin 3 1/2', '@Piecewise((A*sin(3*t + (1/2)), t >= 0))', {'kind': 'piecewise', 'where': 'whole'})]
+    for c in pw_cases:
+        fixed.append([c])
+    fixed.append([('prod 1 tpow 1', '(1)*t**1', {'kind': 'polyexp'}),
+                  ('prod 1 exp -3', '@Piecewise((A*exp((-3)*t), t >= 0))', {'kind': 'piecewise', 'where': 'term'})])
     import time
     tshape = {}
 
@@ -649,7 +830,7 @@ def run(chk, replay=None):
         rp = json.load(open(replay if os.path.isabs(replay) else os.path.join(common.VERIF, replay)))
         inp = rp.get('input', {})
         if 'raw' in inp:
-            txt1 = inp['expr'][2:] if inp['expr'].startswith('A*') else inp['expr']
+            txt1 = inp['expr'][2:] if inp['expr'].startswith('A*') else '@' + inp['expr']
             for _ in range(3):
                 timed_case([(inp['raw'], txt1, dict(rp.get('key', {'kind': 'replay'})))], 'replay')
         fixed = []
@@ -666,7 +847,35 @@ def run(chk, replay=None):
         if not quick:
             timed_case(terms, 'generated-second-point')
 
+    # ---- 3c. error paths and API entry points (no value to judge: the property speaks of returned closed forms); counted only
+    if not replay:
+        err_inputs = ['x(t)*y(t)', 't*x(t)', 'x(t)*exp(1 - t)', 'sin(s*t)', 'Integral(x(tau), (tau, 1, t))', 'Integral(x(tau), tau)',
+                      'Integral(x(tau)*y(t - tau), (tau, 0, t - 1))', 'Integral(x(tau)*t, (tau, 0, t))', 'Integral(x(tau)*y(tau), (tau, 0, t))',
+                      'Derivative(x(t), t)*exp(-t)', 'x(t)*DiracDelta(t, 1)', 'Derivative(exp(-t), s)', 'x(t**2)', 'x(t)*y(t)*exp(-t)']
+        for einp in err_inputs:
+            signal.alarm(budget)
+            try:
+                r = lexpr(einp).laplace().sympy
+                out = 'returned' + (':unevaluated' if (r.has(S.Integral) or r.has(S.Limit)) else '')
+            except SlowCase:
+                out = 'slow'
+            except Exception as ex:   # noqa
+                out = 'error:' + type(ex).__name__
+            finally:
+                signal.alarm(0)
+            chk.count('error-paths', out)
+        try:
+            tt_ = lcapy.t.sympy
+            xf = S.Function('x')
+            r1 = _lap.LT(S.Eq(xf(tt_), S.exp(-tt_)), tt_, ssym)
+            chk.count('error-paths', 'LT(Eq):' + ('ok' if (r1.is_Equality and S.simplify(r1.rhs - 1 / (ssym + 1)) == 0) else 'unexpected'))
+            r2 = _lap.laplace_transform(S.exp(-tt_), tt_, ssym, evaluate=False)
+            chk.count('error-paths', 'evaluate=False:' + ('integral' if r2.has(S.Integral) else 'unexpected'))
+        except Exception as ex:   # noqa
+            chk.count('error-paths', 'api-error:' + type(ex).__name__)
     chk.coverage['time_by_shape'] = tshape
+    bcov.stop()
+    chk.coverage['branch_coverage'] = bcov.table()
     # ---- 4. classification
     chk.coverage['correspondence']['samples_of_disagreement'] = disagreements[:5]
     if broken and counterexamples[0] == 0 and not chk.known_seen:
